@@ -47,7 +47,10 @@ def idset_member_range(C):
         return None
     return lambda node: rng if node.get('k') == 'MethodCall' and C.is_idset_place(node['recv']) else None
 
-def arm_paths(C, role, field_hook=None, **kw):
+def arm_paths(C, role, field_hook=None, locals_=None, **kw):
+    """The enumerated paths of the select! arm `role`.  `locals_` ({binding id: term}) gives locals of the enclosing function that
+    are declared outside the arm the value they are to have when the arm is entered (a flag the loop carries: a rule evaluates the
+    arm from each value it argues about); without it such a local reads as ('unbound', binding, name)."""
     f = C.facts
     L = C.loop
     arm = C.arms[role]
@@ -59,6 +62,7 @@ def arm_paths(C, role, field_hook=None, **kw):
     for b, d in L.defs.items():
         if d['kind'] == 'let' and d.get('src') is not None and d['src'].get('k') == 'Path' and d['src'].get('res') == 'local' and d['src']['bind'] in env and not d['proj']:
             env[b] = env[d['src']['bind']]
+    env.update(locals_ or {})
     st = absx.St(env)
     outs = []
     for kind, s2 in I.match(arm['pat'], ARM, st):
@@ -81,6 +85,43 @@ def map_calls(C, o, which, names=None):
 
 def sends(o, sender_ty):
     return [(i, args, node) for i, cal, args, node in sem.calls(o, lambda c: c.rsplit('::', 1)[-1] == 'send') if sem.recv_ty(node) == sender_ty]
+
+
+# the response arm's binding is Option<Result<(id, (protocolOp, controls)), io::Error>>: the decoded message and its ID
+MSG = ('variant', ('variant', ARM, 'Some', 0), 'Ok', 0)
+DECODED_ID = ('field', MSG, '0')
+LOOKUPS = ('get', 'get_mut', 'remove', 'remove_entry')
+
+def routing_lookups(C, o, key=None):
+    """The lookups a path makes in the routing maps (under `key`, when given), in event order:
+    [(event index, 'result' | 'search', method name, the call's term, found)] - found is what the path condition says about the
+    answer being Some: True (an entry was there: its sender is the payload), False, or None when the path never tested it."""
+    out = []
+    for which in ('result', 'search'):
+        for i, name, args, node in map_calls(C, o, which, LOOKUPS):
+            if len(args) < 2 or (key is not None and args[1] != key):
+                continue
+            term = ('call', o.st.ev[i][1], tuple(args), node.get('id'))
+            out.append((i, which, name, term, absx.pc_variant(o.st.pc, lambda t, term=term: t == term, 'Some')))
+    return sorted(out, key=lambda x: x[0])
+
+def found_before(C, o, i, key, which=None):
+    """Some lookup under `key` (in the map `which`, when given) made before event i of the path found an entry: from there on the
+    path runs under "an operation is registered under this ID" - however the code that follows is nested (inside the `Some` arm,
+    or after a `match` / `let .. else` whose `None` alternative left the arm)."""
+    return any(j < i and fnd is True and (which is None or w == which) for j, w, _n, _t, fnd in routing_lookups(C, o, key))
+
+def replies_to_registered(C, o, key, which, taken_out=False):
+    """[(event index, node)] of the reply sends of a path that go to the operation registered under `key` in the map `which`: the
+    receiver of the send is the very sender a lookup under that key found (with taken_out: found and removed)."""
+    T = anchors.T_RESULT_SENDER if which == 'result' else anchors.T_ITEM_SENDER
+    hits = []
+    for i, args, node in sends(o, T):
+        for j, w, name, term, fnd in routing_lookups(C, o, key):
+            if j < i and w == which and fnd is True and args[0] == ('variant', term, 'Some', 0) and (not taken_out or name == 'remove'):
+                hits.append((i, node))
+                break
+    return hits
 
 
 def net_registration(C, o, which, key):
